@@ -392,11 +392,14 @@ def run(pid, P, a, seed, t0):
         if c is None or c.opts.get("no_rt"):
             continue
         hid = hashlib.sha1(q.encode()).hexdigest()[:8]
-        deep = a.tier == "thorough" or bool(deg_set)
-        found = search_input(q, "mon" + hid, seeds=(0, 1, 2, 3) if deep else (0,), n=4000 if deep else 600)
+        deep = a.tier == "thorough" or q in deg_set
+        wide = bool(deg_set) and not deep            # a caller / sibling of a degraded function: two seeds
+        found = search_input(q, "mon" + hid, seeds=(0, 1, 2, 3) if deep else ((0, 1) if wide else (0,)), n=4000 if deep else (1500 if wide else 600))
         monitor.append(q)
         if found:
             violations.append((found[0], None, True))
+            if deg_set and a.tier != "thorough":
+                break          # one replayable failing input decides the run; the remaining stand-in searches are skipped
 
     discharged = sum(1 for o in real if o.status in ("unsat", "trivial"))
     level = P.get("level", "proof")
